@@ -40,8 +40,14 @@ def fold(node, env):
             if isinstance(base, tuple) and isinstance(i, int) and -len(base) <= i < len(base):
                 return base[i]
         raise _NoFold(t)
-    if isinstance(node, ast.Tuple):
+    if isinstance(node, (ast.Tuple, ast.List, ast.Set)):
         return tuple(fold(e, env) for e in node.elts)
+    if isinstance(node, ast.Call) and isinstance(node.func, ast.Name) and node.func.id == 'range' and 'range' not in env and \
+            not node.keywords and 1 <= len(node.args) <= 3:
+        args = [fold(a, env) for a in node.args]
+        if all(isinstance(a, int) for a in args) and (len(args) < 3 or args[2] != 0):
+            return range(*args)
+        raise _NoFold(ast.unparse(node))
     if isinstance(node, ast.Call) and not node.keywords and ast.unparse(node.func) in _BUILTINS and ast.unparse(node.func) not in env:
         args = [fold(a, env) for a in node.args]
         if not all(isinstance(a, Rational) for a in args):
@@ -75,6 +81,13 @@ def fold(node, env):
             b = fold(cn, env)
             a = left
             op = type(opn)
+            if op in (ast.In, ast.NotIn):
+                if not isinstance(b, (tuple, range)):
+                    raise _NoFold(ast.unparse(node))
+                if (a in b) != (op is ast.In):
+                    return False
+                left = b
+                continue
             tbl = {ast.Lt: a < b, ast.LtE: a <= b, ast.Gt: a > b, ast.GtE: a >= b, ast.Eq: a == b, ast.NotEq: a != b}
             if op not in tbl:
                 raise _NoFold(ast.unparse(node))
